@@ -416,7 +416,38 @@ func applyKnobs(k Knobs) func() {
 func buildPool(s *Spec, st *buildStats) []geojson.Object {
 	pool := make([]geojson.Object, len(s.Pool))
 	for i := range s.Pool {
-		pool[i] = buildObject(&s.Pool[i], st)
+		rc := &s.Pool[i]
+		if rc.Via == "share" {
+			pool[i] = buildShared(rc, pool[:i])
+			continue
+		}
+		pool[i] = buildObject(rc, st)
 	}
 	return pool
+}
+
+// buildShared wraps already built pool objects (no copy): the same child is
+// then reachable through two parents and as a top-level object.
+func buildShared(rc *Recipe, earlier []geojson.Object) geojson.Object {
+	var kids []geojson.Object
+	for _, k := range rc.Refs {
+		if k >= 0 && k < len(earlier) && earlier[k] != nil {
+			kids = append(kids, earlier[k])
+		}
+	}
+	if len(kids) == 0 {
+		return geojson.NewPoint(geometry.Point{X: 2, Y: 2})
+	}
+	switch rc.Kind {
+	case "Feature":
+		m := ""
+		if rc.Members != "" {
+			m = "{" + rc.Members + "}"
+		}
+		return geojson.NewFeature(kids[0], m)
+	case "GeometryCollection":
+		return geojson.NewGeometryCollection(kids)
+	default:
+		return geojson.NewFeatureCollection(kids)
+	}
 }
